@@ -196,9 +196,11 @@ def _evolve_fixed(cellular_automaton, timesteps, apply_rule, r, memoize):
             _step(cell_indices, cells, next_state, memo_table, apply_rule, r, t)
             array[t] = next_state
         elif memoize is True:
-            array[t] = np.array([_get_memoized(n, c, t, apply_rule, memo_table) for c, n in enumerate(neighbourhoods)])
+            array[t] = np.array([_get_memoized(n, c, t, apply_rule, memo_table) for c, n in enumerate(neighbourhoods)],
+                                dtype=cellular_automaton.dtype)
         elif memoize is False:
-            array[t] = np.array([apply_rule(n, c, t) for c, n in enumerate(neighbourhoods)])
+            array[t] = np.array([apply_rule(n, c, t) for c, n in enumerate(neighbourhoods)],
+                                dtype=cellular_automaton.dtype)
         else:
             raise Exception("unsupported memoization option: %s" % memoize)
 
